@@ -138,10 +138,13 @@ def instances(tier):
         out.append({'name': 'order/n3/>/same_names', 'factory': 'order', 'params': {'n': 3, 'kind': '>', 'same_names': True}, 'timeout': 280,
                     'native_limit': 300})
     else:
+        # n = 4: every DAG is isomorphic to one whose edges go from a higher to a lower index; those 6 edges are symbolic, the insertion
+        # order (24 permutations) is symbolic, the 6 upward edges are fixed to absent: 64 x 24 paths per kind
+        up = {f'e{i}{j}': False for i in range(4) for j in range(4) if i < j}
         for k in ('>', '<', '-'):
             out.append({'name': f'order/n3/{k}', 'factory': 'order', 'params': {'n': 3, 'kind': k}, 'timeout': 1200, 'native_limit': 400})
-            out.append({'name': f'order/n4/{k}', 'factory': 'order', 'params': {'n': 4, 'kind': k}, 'timeout': 6000, 'path_timeout': 120,
-                        'native_limit': 2000})
+            out.append({'name': f'order/n4/{k}/downward', 'factory': 'order', 'params': {'n': 4, 'kind': k, 'fix': up}, 'timeout': 6000,
+                        'path_timeout': 120, 'native_limit': 1500})
         out.append({'name': 'order/n3/mix', 'factory': 'order', 'params': {'n': 3, 'kind': 'mix'}, 'timeout': 6000, 'native_limit': 2000})
         for k in ('>', '<', '-'):
             out.append({'name': f'order/n3/{k}/same_names', 'factory': 'order', 'params': {'n': 3, 'kind': k, 'same_names': True},
